@@ -12,6 +12,8 @@ open PyGql
 /-- the closed signed 32-bit interval -/
 def InRange32 (n : Int) : Prop := -2147483648 ≤ n ∧ n ≤ 2147483647
 
+instance (n : Int) : Decidable (InRange32 n) := by unfold InRange32; infer_instance
+
 mutual
 /-- `Conforms reg ty v`: the Python value `v` is a legal resolver argument for a position of type `ty`.
     * non-null ⇒ not `None`;
